@@ -3,10 +3,10 @@
 package wat2c
 
 import (
-	"math"
-	"strconv"
 	"bytes"
 	"fmt"
+	"math"
+	"strconv"
 	"strings"
 	"unicode"
 
